@@ -64,8 +64,13 @@ func (repo *TxRepository) GetNewSafe(ctx context.Context, memPool *state.MemPool
 
 	result := make([]bitcoin.Hash32, 0)
 	for hash, tx := range repo.unconfirmed {
+		if !tx.trusted && memPool.IsTrusted(ctx, hash) {
+			// The trusted node announced the tx after it was received from another node. Keep
+			// that with the tx since the mempool is not persistent.
+			tx.trusted = true
+		}
 		if !tx.safe && !tx.unsafe && tx.time.Before(beforeTime) {
-			if !tx.trusted && !memPool.IsTrusted(ctx, hash) {
+			if !tx.trusted {
 				continue // not trusted yet
 			}
 			tx.safe = true
